@@ -63,6 +63,8 @@ Theorem C10_elem_sound_Mul : elem_sound f_mul z_mul.
 Proof. exact f_mul_sound. Qed.
 Theorem C10_elem_sound_Div : elem_sound f_div z_div.
 Proof. exact f_div_sound. Qed.
+Theorem C10_elem_sound_Div_exact : elem_sound f_div_x z_div.
+Proof. exact f_div_x_sound. Qed.
 Theorem C10_elem_sound_Equal : elem_sound (f_equal range) z_eq.
 Proof. exact f_equal_sound. Qed.
 Theorem C10_F5_equal_fold_refuted :
